@@ -69,7 +69,7 @@ func next(tag, kind string) NondetValue {
 		if v.Tag == tag {
 			return v
 		}
-		if strings.HasPrefix(v.Tag, "time.Now") || v.Tag == "addr" {
+		if strings.HasPrefix(v.Tag, "time.Now") || v.Tag == "addr" || v.Tag == "rand" {
 			continue // clock readings are not replayed natively
 		}
 		panic(AssumeFailed{fmt.Sprintf("replay diverged: want tag %q, recorded %q", tag, v.Tag)})
